@@ -726,3 +726,44 @@ for _n, _d in (
 ):
     AXIOMS[_n] = _pure(_n)
     AXIOM_DOC[_n] = _d
+
+
+@axiom("<bool as Default>::default", doc="false")
+def ax_bool_default(call):
+    return call.ret_leaf(("int", 0))
+
+
+@axiom("<usize as Default>::default", "<u64 as Default>::default", doc="0")
+def ax_int_default(call):
+    return call.ret_leaf(("int", 0))
+
+
+@axiom("<Option<T> as Default>::default", doc="None")
+def ax_option_default(call):
+    return call.ret(mk_variant("None"))
+
+
+@axiom("Request::<T>::into_parts", "Response::<T>::into_parts",
+       doc="(parts, body): parts keeps method/uri/version/headers of the message")
+def ax_into_parts(call):
+    req = call.args[0]
+    out = {(): TOP}
+    for rp, l in req.items():
+        if rp and rp[0] == ("f", "@body"):
+            continue
+        out[(("f", "0"),) + rp] = l
+    for rp, l in subtree(req, (("f", "@body"),)).items():
+        out[(("f", "1"),) + rp] = l
+    return call.ret(out)
+
+
+@axiom("Request::<T>::from_parts", "Response::<T>::from_parts",
+       doc="message with the given parts (method/uri/version/headers) and body")
+def ax_from_parts(call):
+    parts, body = call.args[0], call.args[1]
+    out = {rp: l for rp, l in parts.items() if not (rp and rp[0] == ("f", "@body"))}
+    for rp, l in body.items():
+        out[(("f", "@body"),) + rp] = l
+    if () not in out:
+        out[()] = TOP
+    return call.ret(out)
